@@ -951,6 +951,7 @@ func corpusWide() string {
 	for i := 0; i < 7; i++ {
 		fmt.Fprintf(&sb, "  data%d: {}\n", i)
 	}
+	sb.WriteString("  bound: {driver: local, driver_opts: {type: none, o: bind, device: ./bound}}\n")
 	sb.WriteString("secrets:\n")
 	for i := 0; i < 13; i++ {
 		fmt.Fprintf(&sb, "  sec%02d: {file: ./s}\n", i)
